@@ -263,13 +263,35 @@ func schedParkedRecheck(c *Ctx) *RuleResult {
 	p := c.P
 	ct := p.LookupField(schedPkg, "worker", "currentTask")
 	idle := p.LookupFunc(schedPkg, "InMemoryBuildQueue.getIdleSynchronizeResponse")
+	// functions that park the worker, directly or through callees
+	isEnqueue := func(call *ast.CallExpr) bool {
+		sel, ok := ast.Unparen(call.Fun).(*ast.SelectorExpr)
+		return ok && sel.Sel.Name == "enqueue" && strings.HasSuffix(exprStr(sel.X), ".idleSynchronizingWorkers")
+	}
+	parkers := map[*types.Func]bool{}
+	for changed := true; changed; {
+		changed = false
+		for _, u := range p.UnitsIn(schedPkg) {
+			if parkers[u.Fn] {
+				continue
+			}
+			ast.Inspect(u.Decl.Body, func(n ast.Node) bool {
+				if call, ok := n.(*ast.CallExpr); ok && !parkers[u.Fn] {
+					if fn := calleeOf(u.Info(), call); isEnqueue(call) || (fn != nil && parkers[fn]) {
+						parkers[u.Fn] = true
+						changed = true
+					}
+				}
+				return true
+			})
+		}
+	}
 	for _, u := range p.UnitsIn(schedPkg) {
 		info := u.Info()
-		// the parking statement: call of idleSynchronizingWorkers.enqueue
 		var park ast.Node
 		ast.Inspect(u.Decl.Body, func(n ast.Node) bool {
 			if call, ok := n.(*ast.CallExpr); ok {
-				if sel, ok := ast.Unparen(call.Fun).(*ast.SelectorExpr); ok && sel.Sel.Name == "enqueue" && strings.HasSuffix(exprStr(sel.X), ".idleSynchronizingWorkers") {
+				if fn := calleeOf(info, call); isEnqueue(call) || (fn != nil && parkers[fn]) {
 					park = call
 				}
 			}
@@ -399,6 +421,9 @@ func schedPropagationLoops(c *Ctx) *RuleResult {
 				}
 				return true
 			})
+			if as, ok := loop.Post.(*ast.AssignStmt); ok && len(as.Lhs) == 1 && len(as.Rhs) == 1 && fieldOf(info, as.Rhs[0]) == parent {
+				steps = true
+			}
 			if !fixes || !steps {
 				return true
 			}
